@@ -319,6 +319,11 @@ def check_dict(ctx, model, style, loaded, obj, seed):
     from xsdata.formats.dataclass.serializers import DictEncoder
 
     rng = random.Random(seed)
+    if any(c.base and not c.fields for c in model.classes):
+        # a derived class that adds no member has the same keys as its base: the decoder cannot tell them apart and which one
+        # wins the tie is not even stable between two calls (documented ambiguity of the class locator, json_parsing.md)
+        ctx.drop("JSON: a derived class without members of its own is indistinguishable from its base")
+        return
     w0 = bc.witness(model, style, obj, None, seed=seed, fn="dict")
     try:
         enc = DictEncoder(context=XmlContext()).encode(obj)
